@@ -10,6 +10,10 @@ def run(tier):
     for rel, q, c, tag in LG.ITEMS:
         if tag == 'C04':
             reps.append(deductive.verify_function(rel, q, c, hooks=LG.OneCellHooks(), module_env=LG.ENV, prefix='%s::%s[one-cell instance]' % (rel, q)))
+    # the update equations of the three algorithms, value-level (pv/contracts/solvers.py)
+    from ..contracts import solvers as SV
+    for q, c, sites in SV.ITEMS:
+        reps.append(deductive.verify_function(SV.REL, q, c, hooks=SV.hooks(sites), prefix='%s::%s[update equations]' % (SV.REL, q)))
     return reps
 
 
